@@ -195,14 +195,15 @@ fn program_text(binds: &[Bind], tasked: bool) -> String {
         }
         match b.area {
             'I' => {
-                g += &format!("  seen1_{k} : {t};\n  seen2_{k} : {t};\n");
-                ext += &format!("  seen1_{k} : {t};\n  seen2_{k} : {t};\n");
+                g += &format!("  seen1_{k} : {t};\n  seen2_{k} : {t};\n  junk_{k} : {t};\n");
+                ext += &format!("  seen1_{k} : {t};\n  seen2_{k} : {t};\n  junk_{k} : {t};\n");
                 if !b.in_program {
                     p1 += &format!("seen1_{k} := v_{k};\n");
                 } else {
                     p2a += &format!("seen1_{k} := v_{k};\n");
                 }
-                p2b += &format!("seen2_{k} := v_{k};\n");
+                // after the last read the program overwrites the input-bound variable: the next latch must restore decode(latched bytes)
+                p2b += &format!("seen2_{k} := v_{k};\nv_{k} := junk_{k};\n");
             }
             'Q' => {
                 g += &format!("  sa_{k} : {t};\n  sb_{k} : {t};\n");
@@ -335,7 +336,7 @@ fn run_case(binds: &[Bind], cycles: &[Cyc]) -> Result<Stats, (String, String, us
                     h.set_input(&format!("sb_{k}"), typed(b.ty, c.stim_b[k]));
                 }
                 'M' => h.set_input(&format!("sb_{k}"), typed(b.ty, c.stim_b[k])),
-                _ => {}
+                _ => h.set_input(&format!("junk_{k}"), typed(b.ty, c.stim_a[k])),
             }
         }
         h.set_input("trip", c.trip);
@@ -463,6 +464,17 @@ fn run_case(binds: &[Bind], cycles: &[Cyc]) -> Result<Stats, (String, String, us
 }
 
 fn gen_cycles(rng: &mut Rng, binds: &[Bind]) -> Vec<Cyc> {
+    let mut v = gen_cycles_fresh(rng, binds);
+    // a third of the cycles deliver exactly the previous cycle's input image again
+    for i in 1..v.len() {
+        if rng.chance(1, 3) {
+            v[i].inputs = v[i - 1].inputs.clone();
+        }
+    }
+    v
+}
+
+fn gen_cycles_fresh(rng: &mut Rng, binds: &[Bind]) -> Vec<Cyc> {
     let n = 2 + rng.usize(6);
     let trip_last = rng.chance(1, 3);
     (0..n)
